@@ -70,6 +70,10 @@ def ndarray2utpm(A):
     shp = numpy.shape(A)
     A = numpy.ravel(A)
     retval = zeros(shp,dtype=A[0])
+    # the coefficient dtype that holds every element (not only the first one)
+    dt = numpy.result_type(retval.data.dtype, *[a.data.dtype if isinstance(a, retval.__class__) else numpy.asarray(a).dtype for a in A])
+    if dt != retval.data.dtype:
+        retval = retval.__class__(retval.data.astype(dt))
 
     for na, a in enumerate(A):
         retval[numpy.unravel_index(na, shp)] = a
